@@ -917,12 +917,15 @@ func (s *Server) processPublish(cl *Client, pk packets.Packet) error {
 		return nil
 	} else if errors.Is(err, packets.CodeSuccessIgnore) {
 		pk.Ignore = true
-	} else if cl.Properties.ProtocolVersion == 5 && pk.FixedHeader.Qos > 0 && errors.As(err, new(packets.Code)) {
-		err = cl.WritePacket(s.buildAck(pk.PacketID, packets.Puback, 0, pk.Properties, err.(packets.Code)))
-		if err != nil {
-			return err
+	} else {
+		if code, ok := err.(packets.Code); ok && cl.Properties.ProtocolVersion == 5 && pk.FixedHeader.Qos > 0 {
+			ackType := packets.Puback
+			if pk.FixedHeader.Qos == 2 {
+				ackType = packets.Pubrec
+			}
+			return cl.WritePacket(s.buildAck(pk.PacketID, ackType, 0, pk.Properties, code))
 		}
-		return nil
+		return nil // a publish answered with an error by a hook is never forwarded or retained
 	}
 
 	if pk.FixedHeader.Retain { // [MQTT-3.3.1-5] ![MQTT-3.3.1-8]
